@@ -31,14 +31,16 @@ def atom_strategy(allow_special):
         "fp": S.fl(-2, 2), "fpp": S.fl(0, 3), "disp": st.sampled_from(["pair", "pair", "none"])})
 
 
-def case_strategy(unit, allow_special, box):
+def case_strategy(unit, allow_special, box, nhkl=3):
     return st.fixed_dictionaries({
         "setting": st.just(unit),
         "abc": st.tuples(S.fl(3, 12), S.fl(3, 12), S.fl(3, 12)).map(list),
         "ang": st.tuples(S.fl(50, 115), S.fl(60, 120), S.fl(-1, 1)).map(list), "orth": st.integers(0, 4).map(lambda i: i == 0),
         "atoms": st.lists(atom_strategy(allow_special), min_size=1, max_size=4),
-        "hkl": st.lists(S.hkls(box, allow_zero=True), min_size=3, max_size=3),
+        "hkl": st.lists(S.hkls(box, allow_zero=True), min_size=nhkl, max_size=nhkl),
         "op": st.integers(0, 191), "ext_pick": S.fl(0, 1), "disper": st.sampled_from(["table", "table", "absent"]),
+        "prev_cell": st.one_of(st.none(), st.none(), S.fl(0.7, 1.4), S.logfl(1e-8, 1e-3)),
+        "pos_as": st.sampled_from(["array", "array", "list", "int-if-integral"]),
         "upper": st.booleans(), "blank": st.booleans()})
 
 
@@ -69,6 +71,7 @@ def build(case):
         name = " ".join(name)
     M.name = name
     M.atoms, M.model = [], []
+    M.int_positions = False
     disper = {} if case["disper"] == "table" else None
     els = elements()
     M.any_special = False
@@ -87,6 +90,12 @@ def build(case):
         if len(stab) > 1:
             M.any_special = True
         pos = np.array([float(x) for x in posf]) + np.array(a_["shift"], float)
+        how = case.get("pos_as", "array")
+        if how == "list":
+            pos = [float(x) for x in pos]
+        elif how == "int-if-integral" and all(float(x).is_integer() for x in pos):
+            pos = [int(x) for x in pos] if i % 2 == 0 else np.array([int(x) for x in pos])     # e.g. an atom at [0, 0, 0]
+            M.int_positions = True
         kind = a_["adp"]
         beta = None
         if kind == "Uiso":
@@ -144,6 +153,43 @@ def tol(M, h, extra_h1=0):
     at most 2 pi |h|_1 delta."""
     h1 = max(float(np.sum(np.abs(h))), extra_h1)
     return 1e-9 * M.S + 4 * math.pi * M.sumf0 * M.g.nsymop * h1 * M.g.trans_defect + 1e-12
+
+
+_BY_NSYMOP = None
+
+
+def warm_up(M, case, ctx):
+    """History element: the same atom objects were used with ANOTHER unit cell (a previous refinement step, or a
+    different sample) and / or with ANOTHER space group of the same order immediately before; results must depend
+    on the arguments of the current call only.  The order of the two earlier calls alternates."""
+    from xfab import structure
+    pc = case.get("prev_cell")
+    if pc is None:
+        return
+    global _BY_NSYMOP
+    if _BY_NSYMOP is None:
+        _BY_NSYMOP = {}
+        for no in range(1, 231):
+            _BY_NSYMOP.setdefault(GR.group(no, "standard").nsymop, []).append(no)
+    f = pc if pc > 0.5 else (1 + pc)
+    other = [M.cell[0] * f, M.cell[1] * f, M.cell[2] * f, M.cell[3], M.cell[4], M.cell[5]]
+    d = M.disper
+    peers = [n for n in _BY_NSYMOP.get(M.g.nsymop, []) if n != M.g.no]
+
+    def other_cell():
+        structure.StructureFactor(np.array([1, 2, 1]), other, M.name, M.atoms, d)
+        ctx.event("same-atom-objects-used-with-another-cell-first")
+
+    def other_group():
+        if peers:
+            og = GR.group(peers[case["op"] % len(peers)], "standard")
+            structure.StructureFactor(np.array([2, 1, 1]), M.cell, og.name, M.atoms, d)
+            ctx.event("same-atom-objects-used-with-another-group-first")
+    steps = [other_cell, other_group] if case["op"] % 2 else [other_group, other_cell]
+    if case["op"] % 3 == 0:
+        steps = steps[:1]
+    for st_ in steps:
+        st_()
 
 
 def sfcalc(M, h, atoms=None, disper="default"):
